@@ -1,0 +1,152 @@
+//go:build verif
+
+// Contracts for the deductive verifier in /verif (comment-only; compiled only with -tags verif).
+package rlp
+
+// big-endian value of the first k bytes of b
+//@ spec func be(b []byte, k int) mathint = ite(k <= 0, 0, be(b, k-1) * 256 + int(b[k-1]))
+
+// ---- encoder primitives: exact and canonical (C14) ----
+
+//@ func intsize   pure
+//@   props C14
+//@   ensures 1 <= result && result <= 8
+//@   ensures result == 1 ==> old(i) < 256
+//@   ensures result == 2 ==> 256 <= old(i) && old(i) < 65536
+//@   invariant @loop 0: 1 <= size && size <= 8 && (size >= 2 ==> i > 0) && (size == 1 ==> i == old(i)) && (size == 2 ==> i == old(i) / 256)
+//@   invariant @loop 0: (size == 2 ==> i < 1<<56) && (size == 3 ==> i < 1<<48) && (size == 4 ==> i < 1<<40) && (size == 5 ==> i < 1<<32) && (size == 6 ==> i < 1<<24) && (size == 7 ==> i < 1<<16) && (size == 8 ==> i < 1<<8)
+//@   nopanic
+
+//@ lemma divdiv1(x mathint)
+//@   props C14
+//@   requires x >= 0
+//@   ensures (x / 256) / 256 == x / 65536
+//@ lemma divdiv2(x mathint)
+//@   props C14
+//@   requires x >= 0
+//@   ensures (x / 65536) / 256 == x / 16777216
+//@ lemma divdiv3(x mathint)
+//@   props C14
+//@   requires x >= 0
+//@   ensures (x / 16777216) / 256 == x / 4294967296
+//@ lemma divdiv4(x mathint)
+//@   props C14
+//@   requires x >= 0
+//@   ensures (x / 4294967296) / 256 == x / 1099511627776
+//@ lemma divdiv5(x mathint)
+//@   props C14
+//@   requires x >= 0
+//@   ensures (x / 1099511627776) / 256 == x / 281474976710656
+//@ lemma divdiv6(x mathint)
+//@   props C14
+//@   requires x >= 0
+//@   ensures (x / 281474976710656) / 256 == x / 72057594037927936
+//@ lemma divdiv7(x mathint)
+//@   props C14
+//@   requires x >= 0
+//@   ensures (x / 72057594037927936) / 256 == x / 18446744073709551616
+
+//@ func putint
+//@   props C14
+//@   opt fuel=9
+//@   requires len(b) >= 8
+//@   modifies elems(b)
+//@   ensures 1 <= size && size <= 8 && be(b, size) == i
+//@   ensures size == 1 || b[0] != 0
+//@   use divdiv1(int(i))
+//@   use divdiv2(int(i))
+//@   use divdiv3(int(i))
+//@   use divdiv4(int(i))
+//@   use divdiv5(int(i))
+//@   use divdiv6(int(i))
+//@   use divdiv7(int(i))
+//@   nopanic
+
+//@ func headsize   pure
+//@   props C14
+//@   ensures size < 56 ==> result == 1
+//@   ensures size >= 56 ==> 2 <= result && result <= 9
+//@   nopanic
+
+//@ func puthead
+//@   props C14
+//@   opt fuel=9
+//@   requires len(buf) >= 9 && smalltag <= 200 && largetag <= 247
+//@   modifies elems(buf)
+//@   ensures size < 56 ==> result == 1 && int(buf[0]) == int(smalltag) + int(size)
+//@   ensures size >= 56 ==> 2 <= result && result <= 9 && int(buf[0]) == int(largetag) + result - 1 && buf[1] != 0
+//@   nopanic
+
+// ---- decoder primitives: never panic on any input, account for every byte, reject non-canonical sizes (C14, C15) ----
+
+//@ pred wfStream(s *Stream) = s != nil && s.r != nil && len(s.uintbuf) == 8 && forall(i, 0, len(s.stack), s.stack[i].pos <= s.stack[i].size) && cacheOK(s)
+// the cached (kind, size) of the value ahead was checked against the remaining input when it was read
+//@ pred cacheOK(s *Stream) = s.kind >= 0 && s.kinderr == nil ==> (s.kind == Byte ==> s.size == 0) && (s.limited && len(s.stack) == 0 ==> s.size <= s.remaining)
+
+//@ func (ByteReader).Read   trusted
+//@   modifies elems(p)
+//@   ensures 0 <= result0 && result0 <= len(p)
+//@ func (ByteReader).ReadByte   trusted
+//@   modifies nothing
+
+//@ func (*Stream).willRead
+//@   props C14 C15
+//@   requires wfStream(s)
+//@   modifies s.kind, s.remaining, elems(s.stack)
+//@   ensures wfStream(s)
+//@   ensures result == nil && old(s.limited) ==> s.remaining == old(s.remaining) - n && n <= old(s.remaining)
+//@   ensures result != nil ==> s.remaining == old(s.remaining)
+//@   ensures result == nil && !old(s.limited) ==> s.remaining == old(s.remaining)
+//@   ensures s.limited == old(s.limited) && sameSlice(s.uintbuf, old(s.uintbuf)) && len(s.stack) == old(len(s.stack)) && s.r == old(s.r)
+//@   nopanic
+
+//@ func (*Stream).readByte
+//@   props C14 C15
+//@   requires wfStream(s)
+//@   ensures wfStream(s) && s.limited == old(s.limited) && s.remaining <= old(s.remaining) && len(s.stack) == old(len(s.stack))
+//@   nopanic
+
+//@ func (*Stream).readFull
+//@   props C14 C15
+//@   requires wfStream(s)
+//@   ensures wfStream(s) && s.limited == old(s.limited) && s.remaining <= old(s.remaining) && len(s.stack) == old(len(s.stack))
+//@   ensures err == nil && old(s.limited) ==> uint64(len(buf)) <= old(s.remaining)
+//@   invariant @loop 0: 0 <= n && n <= len(buf) && wfStream(s) && s.limited == old(s.limited) && s.remaining <= old(s.remaining) && len(s.stack) == old(len(s.stack))
+//@   nopanic
+
+//@ func (*Stream).readUint
+//@   props C14 C15
+//@   requires wfStream(s) && size <= 8
+//@   ensures wfStream(s) && s.limited == old(s.limited) && s.remaining <= old(s.remaining) && len(s.stack) == old(len(s.stack))
+//@   ensures result1 == nil && size >= 2 ==> s.uintbuf[8 - int(size)] != 0
+//@   invariant @loop 0: 0 <= i && i <= start && wfStream(s) && s.limited == old(s.limited) && s.remaining == old(s.remaining) && len(s.stack) == old(len(s.stack))
+//@   nopanic
+
+//@ func (*Stream).readKind
+//@   props C14 C15
+//@   requires wfStream(s)
+//@   ensures wfStream(s) && s.limited == old(s.limited) && s.remaining <= old(s.remaining) && len(s.stack) == old(len(s.stack))
+//@   ensures err == nil && kind == Byte ==> size == 0
+//@   nopanic
+
+//@ func (*Stream).Kind
+//@   props C14 C15
+//@   requires wfStream(s)
+//@   ensures wfStream(s) && s.limited == old(s.limited) && s.remaining <= old(s.remaining) && len(s.stack) == old(len(s.stack))
+//@   ensures err == nil && s.limited && len(s.stack) == 0 ==> size <= s.remaining
+//@   ensures err == nil && kind == Byte ==> size == 0
+//@   nopanic
+
+// a string value never makes the decoder allocate more than the input that is left (top level, limited stream)
+//@ func (*Stream).Bytes
+//@   props C14 C15
+//@   requires wfStream(s) && s.limited && len(s.stack) == 0 && s.remaining <= 1<<40
+//@   opt alloc-bound=!s.limited || len(s.stack) > 0 || uint64($size) <= s.remaining
+//@   ensures wfStream(s)
+//@   nopanic
+
+//@ func (*Stream).uint
+//@   props C14 C15
+//@   requires wfStream(s) && 0 <= maxbits && maxbits <= 64
+//@   ensures wfStream(s)
+//@   nopanic
